@@ -5,6 +5,7 @@ Case (plain JSON), common fields
      "cls": "plain" | "sandbox" | "immutable" | "native",   environment class of BOTH environments of the pair
      "auto": bool | "byname",                                autoescape option of both ("byname": a callable, on for
                                                              the templates base / lib / inc, off for main)
+     "undef": "default" | "strict" | "chainable" | "debug",  undefined type of both (optional, default "default")
      "wrap": bool,   async side: callables of the data become coroutine functions, marked iterables async generators
      ...}
 family fields
@@ -143,25 +144,29 @@ def _ai_async(x):
 
 
 def _cofn_sync(x):
-    return list(x)
+    return _copy(x)
 
 
 async def _cofn_async(x):
     await asyncio.sleep(0)
-    return list(x)
+    return _copy(x)
 
 
 async def _cogen_async(x):
     return _agen_susp(x)
 
 
+def _copy(xs):
+    return list(xs) if isinstance(xs, list) else xs   # xs may be a scalar (falsy non-iterable sources)
+
+
 class SyncOb:
     def __init__(self, xs):
-        self.at = list(xs)
+        self.at = _copy(xs)
         self._xs = xs
 
     def m(self):
-        return list(self._xs)
+        return _copy(self._xs)
 
     def __repr__(self):
         return "<ob>"
@@ -169,12 +174,12 @@ class SyncOb:
 
 class AsyncOb:
     def __init__(self, xs):
-        self.at = Aw(list(xs))
+        self.at = Aw(_copy(xs))
         self._xs = xs
 
     async def m(self):
         await asyncio.sleep(0)
-        return list(self._xs)
+        return _copy(self._xs)
 
     def __repr__(self):
         return "<ob>"
@@ -260,11 +265,16 @@ def _autoescape_by_name(name):
     return name in BYNAME_TRUE
 
 
-def _make_env(cls, is_async, auto, templates, globs=None):
+UNDEFS = ("default", "strict", "chainable", "debug")
+
+
+def _make_env(cls, is_async, auto, templates, globs=None, undef="default"):
     st = _setup()
     if auto == "byname":
         auto = _autoescape_by_name
-    env = st["classes"][cls](loader=st["jinja2"].DictLoader(templates), enable_async=is_async, autoescape=auto,
+    j = st["jinja2"]
+    ucls = {"default": j.Undefined, "strict": j.StrictUndefined, "chainable": j.ChainableUndefined, "debug": j.DebugUndefined}[undef]
+    env = st["classes"][cls](loader=j.DictLoader(templates), enable_async=is_async, autoescape=auto, undefined=ucls,
                              extensions=["jinja2.ext.loopcontrols"])
     env.filters["afilt"] = st["afilt"]
     env.tests["atest"] = st["atest"]
@@ -368,9 +378,11 @@ def _run_plan(case, plan):
     cls, auto, wrap = case.get("cls", "plain"), case.get("auto", False), bool(case.get("wrap", False))
     auto = "byname" if auto == "byname" else bool(auto)
     native = cls == "native"
-    senv = _make_env(cls, False, auto, plan.templates, plan.globs)
-    aenv = _make_env(cls, True, auto, plan.templates, plan.globs)
+    undef = case.get("undef", "default")
+    senv = _make_env(cls, False, auto, plan.templates, plan.globs, undef)
+    aenv = _make_env(cls, True, auto, plan.templates, plan.globs, undef)
     labels = set(plan.labels)
+    labels.add("undef_" + undef)
     labels.update(("fam_" + case["fam"], "cls_" + cls, "auto_byname" if auto == "byname" else ("auto" if auto else "noauto"),
                    "wrap" if wrap else "nowrap"))
     compared = 0
@@ -794,6 +806,8 @@ def _stage_src(st):
         return "|map" + _args([p["f"]] + list(p.get("args", [])), [])
     if name in ("select", "reject"):
         return "|" + name + _args(([p["t"]] if p.get("t") else []) + list(p.get("args", [])), [])
+    if name in ("selectattr", "rejectattr") and p.get("noargs"):
+        return "|" + name     # invalid argument list: FilterArgumentError as soon as the filter looks at its arguments
     if name in ("selectattr", "rejectattr"):
         return "|" + name + _args([p["attr"]] + ([p["t"]] if p.get("t") else []) + list(p.get("args", [])), [])
     if name == "unique":
@@ -838,6 +852,10 @@ def _src_src(src):
         return "ob.m()"
     if kind == "attr":
         return "ob.at"
+    if kind == "missing":
+        return "nope"       # a name that is not in the context: an undefined value of the environment's type
+    if kind == "missattr":
+        return "ob.zz"      # a missing attribute
     raise core.HarnessError("unknown source %r" % (kind,))
 
 
@@ -1006,6 +1024,12 @@ def _plan_pipe(case, allow_known=False):
     labels = {"src_" + p["src"][0], "sink_" + p["sink"][0], "emb_" + p.get("emb", "plain")}
     if p.get("emb") in ("selfblock", "superblock") and bool(p.get("ae")) != (case.get("auto") is True):
         labels.add("blockref_under_other_autoescape")
+    if not isinstance(xs_json, list) or not xs_json:
+        labels.add("falsy_source_" + ("scalar" if not isinstance(xs_json, (list, str)) else "empty"))
+        if p["stages"] and p["stages"][0][0] in ("select", "reject", "selectattr", "rejectattr"):
+            labels.add("falsy_into_select")
+    if p["src"][0] in ("missing", "missattr"):
+        labels.add("undefined_source_" + case.get("undef", "default"))
     if p["sink"][0] == "alias" and not p["stages"] and p["src"][0] == "var":
         labels.add("alias_of_plain_list")
     if p["sink"][0] == "for":
@@ -1126,11 +1150,23 @@ def _pipe_cases():
 
         ty = pick(["int", "int", "str", "str", "dict", "dict", "dict", "list", "pair", "mix"])
         xs = items(ty)
-        sk = pick(["var", "var", "gen", "gen", "cofn", "cogen", "meth", "attr", "lit", "range"])
-        if sk == "lit" and not (ty in ("int", "str", "list", "pair") and not any(isinstance(x, dict) for x in xs)):
+        sk = pick(["var", "var", "gen", "gen", "cofn", "cogen", "meth", "attr", "lit", "range", "missing", "missattr"])
+        undef = pick(["default", "default", "default", "default", "default", "strict", "strict", "chainable", "debug"])
+        if sk in ("missing", "missattr") and chance(50):
+            undef = "strict"
+        if chance(6):
+            # a falsy value that is not a sequence of items (an optional field that is None, 0, False ...) or an empty one
+            xs = pick([None, 0, False, "", [], None, 0])
+            ty = "mix"
+            if sk in ("range", "missing", "missattr"):
+                sk = "var"
+        if sk == "lit" and isinstance(xs, list) and not (ty in ("int", "str", "list", "pair") and not any(isinstance(x, dict) for x in xs)):
             sk = "var"
         if sk == "lit":
             src = ["lit", xs]
+        elif sk in ("missing", "missattr"):
+            src = [sk, None]
+            ty = "mix"
         elif sk == "range":
             src = ["range", draw(st.integers(0, 5))]
             ty = "int"
@@ -1161,6 +1197,8 @@ def _pipe_cases():
             if chance(7):
                 t = pick(["int", "str", "dict", "list", "pair", "mix"])  # deliberately ill-typed
             choices = ["select", "reject", "unique", "slice", "list", "batch", "sort", "reverse"]
+            if not isinstance(xs, list) or not xs:
+                choices += ["select", "reject", "selectattr", "rejectattr", "selectattr", "map", "mapattr"]
             if t == "int":
                 choices += ["map", "map", "select"]
             elif t == "str":
@@ -1226,7 +1264,10 @@ def _pipe_cases():
                 tn, args = test_for({"a": "int", "b": "str"}.get(a, "mix"))
                 if chance(25):
                     tn, args = None, []
-                return [k, {"attr": a, "t": tn, "args": args}], t
+                par = {"attr": a, "t": tn, "args": args}
+                if chance(6):
+                    par["noargs"] = True
+                return [k, par], t
             if k == "unique":
                 return ["unique", {"cs": pick([None, None, True, False])}], t
             if k == "uniqueattr":
@@ -1321,7 +1362,8 @@ def _pipe_cases():
             p["ae"] = chance(50)
         if sk_[0] == "for" and sk_[1]["v"] == 10:
             p["warm"] = pick([1, 1, 2, 0])
-        return {"fam": "pipe", "cls": pick(CLASSES + ("plain", "plain")), "auto": auto, "wrap": wrap, "p": p, "data": {"xs": xs}}
+        return {"fam": "pipe", "cls": pick(CLASSES + ("plain", "plain")), "auto": auto, "undef": undef, "wrap": wrap, "p": p,
+                "data": {"xs": xs}}
 
     return cases()
 
@@ -1335,6 +1377,7 @@ def _stmt_cases(max_depth, max_nodes):
         prog = draw(G.programs(max_depth, max_nodes, autoescape=auto))
         datas = draw(G.datas(3))
         return {"fam": "stmt", "cls": draw(st.sampled_from(CLASSES + ("plain",))), "auto": auto, "wrap": draw(st.booleans()),
+                "undef": draw(st.sampled_from(["default", "default", "default", "default", "strict", "chainable"])),
                 "prog": prog, "data": datas, "mask": draw(st.integers(0, 65535))}
 
     return cases()
@@ -1429,7 +1472,8 @@ def floors(total, tier):
     for sink in ("join", "list", "first", "sum", "for"):
         if lab.get("lazy_into_" + sink, 0) < 20:
             msgs.append("lazy filter result into %s < 20 times" % sink)
-    for lab_ in ("blockref_under_other_autoescape", "alias_of_plain_list", "auto_byname", "warm_1"):
+    for lab_ in ("blockref_under_other_autoescape", "alias_of_plain_list", "auto_byname", "warm_1", "falsy_into_select",
+                 "undefined_source_strict", "undef_strict", "undef_chainable", "undef_debug"):
         if lab.get(lab_, 0) < 30:
             msgs.append("%s < 30 times" % lab_)
     for v in range(N_FOR_VARIANTS):
